@@ -9,6 +9,7 @@
 import Sq.Denote
 import SqLemmas.DenoteSound
 import SqLemmas.DenoteComplete
+import SqLemmas.DenoteHalt
 namespace SqProps.C07Den
 open Sq Sq.Den
 
@@ -84,5 +85,20 @@ theorem semantics_iff_machine (B : List Nat) (op : Op) (vmi : Nat) (w : World) (
 theorem semantics_is_monotone_in_fuel (B : List Nat) (f g : Nat) (hfg : f ≤ g) (op : Op) (vmi : Nat) (w : World)
     (r : Out × World) (h : evalOp B f op vmi w = some r) : evalOp B g op vmi w = some r :=
   evalOp_mono hfg h
+
+/-- **`eval` returns exactly what the semantics prescribes**: the machine started by `initCfg` for one `eval` call halts
+    with `done v` (resp. `failed e`) in world `w'` after some number of steps IF AND ONLY IF the compositional semantics
+    gives the program the outcome `ret v` (resp. `raise e`) and the world `w'` for some fuel — same value or error, same
+    host names, same heap, same operation count -/
+theorem eval_call_iff_semantics (w : World) (bs : List Nat) (namesAddr budget : Nat) (ast : Op) (o : Out) (w' : World) :
+    (∃ N, run N (initCfg w bs namesAddr budget ast) = { ctl := o.halt, k := [], w := w', budgets := bs ++ [budget] }) ↔
+    (∃ f, evalOp (bs ++ [budget]) f ast w.vms.length { w with vms := w.vms ++ [{ scopes := [namesAddr], ops := 0 }] } =
+      some (o, w')) := by
+  constructor
+  · rintro ⟨N, h⟩
+    exact evalOp_complete_halt (B := bs ++ [budget]) ast w.vms.length _ N o w' [] h
+  · rintro ⟨f, hf⟩
+    obtain ⟨n, hn⟩ := eval_call_sound f w bs namesAddr budget ast o w' hf
+    exact ⟨n + 1 + 0, hn 0⟩
 
 end SqProps.C07Den
